@@ -19,7 +19,7 @@ for pid in ids:
             "quick_cmd": "./check %s --tier quick" % pid,
             "thorough_cmd": "./check %s --tier thorough" % pid,
             "evidence_file": "evidence/%s.json" % pid,
-            "replay_cmd_template": "cat {path}",
+            "replay_cmd_template": "python3 tools/replay.py {path}",
             "engine": m["engine"],
             "level_claimed": {"category": m["level"], "text": m["text"], "design_ref": m["design_ref"]},
             "level_note": m["note"],
